@@ -970,13 +970,13 @@ MANIFEST = dict(
         "paths, temp-file + os.replace publication, who-may-write, refusal to overwrite the best checkpoint, "
         "reader/writer path-helper agreement). These are necessary conditions for crash safety at every crash "
         "point between two file-system effects; parameter equality after reload and file-system semantics are "
-        "not decided."),
+        "not decided. save_model_and_optimizer_with_info is interpreted over plain data against a modelled directory (temporary files, torch.save tags, os.replace moves) for the writing rank, other ranks and no state directory: exactly {model path: model state, optimizer path: optimizer state} afterwards, temporaries in the destination's directory, both written before the first move."),
     level_note=(
         "Trusted: python ast; os.replace atomic within a directory; only the designated effect calls touch the "
         "file system; a crash point = any position between two effect events of an enumerated path (loops "
         "unrolled 0/1(/2)). Known finding F8 (collision branch appends history first) is listed in "
         "known_findings.json."),
-    technique="static analysis: syntax-directed CFG path enumeration + typestate over effect events, reaching-definitions provenance; checkpoint table: __init__ / update_for_epoch interpreted against a modelled state directory over every metric history of length 3 and 4 (files held after every completed update = last and best epoch with their own parameters; epoch-less names refused exactly when the best checkpoint would be overwritten)",
+    technique="static analysis: syntax-directed CFG path enumeration + typestate over effect events, reaching-definitions provenance; checkpoint table: __init__ / update_for_epoch interpreted against a modelled state directory over every metric history of length 3 and 4 (files held after every completed update = last and best epoch with their own parameters; epoch-less names refused exactly when the best checkpoint would be overwritten); the checkpoint saver interpreted against a modelled directory",
     design_ref="DESIGN.md section 4 C16, section 3 G10",
 )
 
